@@ -43,3 +43,42 @@ Fixpoint remove_label (l : str) (n : ltop) : list ltop :=
   | other => [other]
   end.
 Definition remove_foot (f : fout) (ly : list ltop) : list ltop := flat_map (remove_label (lbl_of f)) ly.
+
+(* ---- base.py: render_footnote_ref / render_footnote_reference (docutils document.note_* registries) ---- *)
+Definition fn_dupnames (f : fn) : list str := [].     (* footnotes built by MyST never get dupnames: duplicates are dropped *)
+(* nodes.footnote_reference(..): the next reference of the document, not yet marked auto *)
+Definition new_ref (g : regs) (target : str) : rf := {| r_idx := g_nrefs g; r_label := target; r_auto := false |}.
+Definition ref_set_auto (r : rf) : rf := {| r_idx := r_idx r; r_label := r_label r; r_auto := true |}.
+Definition ref_set_refname (r : rf) (target : str) : rf := {| r_idx := r_idx r; r_label := target; r_auto := r_auto r |}.
+Definition note_autofootnote_ref (g : regs) (r : rf) : regs :=
+  {| g_nameids := g_nameids g; g_autofootnotes := g_autofootnotes g; g_footnotes := g_footnotes g;
+     g_autofootnote_refs := g_autofootnote_refs g ++ [r]; g_footnote_refs := g_footnote_refs g;
+     g_allrefs := g_allrefs g; g_nrefs := g_nrefs g; g_warn := g_warn g |}.
+Definition note_footnote_ref (g : regs) (r : rf) : regs :=
+  {| g_nameids := g_nameids g; g_autofootnotes := g_autofootnotes g; g_footnotes := g_footnotes g;
+     g_autofootnote_refs := g_autofootnote_refs g; g_footnote_refs := dappend (g_footnote_refs g) (r_label r) r;
+     g_allrefs := g_allrefs g; g_nrefs := g_nrefs g; g_warn := g_warn g |}.
+Definition append_ref (g : regs) (r : rf) : regs :=
+  {| g_nameids := g_nameids g; g_autofootnotes := g_autofootnotes g; g_footnotes := g_footnotes g;
+     g_autofootnote_refs := g_autofootnote_refs g; g_footnote_refs := g_footnote_refs g;
+     g_allrefs := g_allrefs g ++ [r]; g_nrefs := S (g_nrefs g); g_warn := g_warn g |}.
+(* nodes.footnote(): no name yet *)
+Definition new_fn (body : N) : fn := {| f_label := []; f_auto := false; f_body := body |}.
+Definition fn_add_name (f : fn) (target : str) : fn := {| f_label := target; f_auto := f_auto f; f_body := f_body f |}.
+Definition fn_set_auto (f : fn) : fn := {| f_label := f_label f; f_auto := true; f_body := f_body f |}.
+Definition note_footnote (g : regs) (f : fn) : regs :=
+  {| g_nameids := g_nameids g; g_autofootnotes := g_autofootnotes g; g_footnotes := g_footnotes g ++ [f];
+     g_autofootnote_refs := g_autofootnote_refs g; g_footnote_refs := g_footnote_refs g;
+     g_allrefs := g_allrefs g; g_nrefs := g_nrefs g; g_warn := g_warn g |}.
+Definition note_autofootnote (g : regs) (f : fn) : regs :=
+  {| g_nameids := g_nameids g; g_autofootnotes := g_autofootnotes g ++ [f]; g_footnotes := g_footnotes g;
+     g_autofootnote_refs := g_autofootnote_refs g; g_footnote_refs := g_footnote_refs g;
+     g_allrefs := g_allrefs g; g_nrefs := g_nrefs g; g_warn := g_warn g |}.
+Definition note_explicit_target (g : regs) (f : fn) : regs :=
+  {| g_nameids := g_nameids g ++ [f_label f]; g_autofootnotes := g_autofootnotes g; g_footnotes := g_footnotes g;
+     g_autofootnote_refs := g_autofootnote_refs g; g_footnote_refs := g_footnote_refs g;
+     g_allrefs := g_allrefs g; g_nrefs := g_nrefs g; g_warn := g_warn g |}.
+Definition add_warn (g : regs) (w : warn) : regs :=
+  {| g_nameids := g_nameids g; g_autofootnotes := g_autofootnotes g; g_footnotes := g_footnotes g;
+     g_autofootnote_refs := g_autofootnote_refs g; g_footnote_refs := g_footnote_refs g;
+     g_allrefs := g_allrefs g; g_nrefs := g_nrefs g; g_warn := g_warn g ++ [w] |}.
